@@ -117,8 +117,15 @@ class MinGenSet():
             if not all(isinstance(constraint, list) for constraint in self.partition_constraints):
                 utils.logger.error(f"{__name__}: partition_constraints must be a list of lists.")
                 raise ValueError("partition_constraints must be a list of lists.")        
-            # Float parts that sum up to the total as decimal numbers (0.1 + 0.2 + 0.3 = 0.6) differ in the last binary digits
-            if not all(math.isclose(sum(part.item() if hasattr(part, "item") else part for part in constraint), self.total, rel_tol=1e-9, abs_tol=1e-9) for constraint in self.partition_constraints):
+            # Float parts that sum up to the total as decimal numbers (0.1 + 0.2 + 0.3 = 0.6) differ in the last binary digits: they are
+            # compared up to the rounding error of the sum (a few units in the last place per part). Integral sums are compared exactly
+            # (a fixed relative tolerance would accept 10**9 + 10**9 = 2 * 10**9 + 1)
+            part_sums = [(sum(part.item() if hasattr(part, "item") else part for part in constraint), len(constraint)) for constraint in self.partition_constraints]
+            if not all(
+                (part_sum == self.total) if (float(part_sum).is_integer() and float(self.total).is_integer())
+                else abs(part_sum - self.total) <= 4 * max(1, num_parts) * math.ulp(max(abs(float(part_sum)), abs(float(self.total))))
+                for part_sum, num_parts in part_sums
+            ):
                 utils.logger.error(f"{__name__}: The sum of the numbers inside each subset constraint must equal the total value.")
                 raise ValueError("The sum of the numbers inside each subset constraint must equal the total value.")
 
